@@ -10,9 +10,12 @@ from cgv.harness import Violation, lib
 ID = "C07"
 RULE = (
     "cases: histories of up to 40 API calls (add with default flags or uid=True, connect, disconnect, "
-    "remove, set_output, add_blackbox, add_subcircuit, fill_blackbox) with arguments drawn from a "
-    "16-name universe that contains digit-leading, empty, dotted pin-like and prefix-like names, "
-    "unsupported types, duplicate and self-referential fan-in/fan-out lists; start state = empty "
+    "remove, set_output, add_blackbox, add_subcircuit, fill_blackbox), generated two ways: (blind) "
+    "arguments drawn from a 16-name universe that contains digit-leading, empty, dotted pin-like and "
+    "prefix-like names, unsupported types, duplicate and self-referential fan-in/fan-out lists; "
+    "(model-based) the history is grown against a live circuit so that each call's arguments are chosen "
+    "from the nodes, edges and instances that exist at that point (plus missing ones), as a rule-based "
+    "state machine would; start state = empty "
     "circuit, a small combinational circuit, or a circuit with a connected blackbox. After every call "
     "(returned or raised) an independent checker verifies the wiring invariants listed in the property "
     "on c.graph / c.blackboxes (pins removed by the caller itself are excused); a raised call must not "
@@ -141,8 +144,81 @@ def _op():
     return st.one_of(add, add, add, conn, conn, disc, rem, so, abb, abb, asc, fill, fill)
 
 
+@st.composite
+def _stateful_case(draw, ctx):
+    """Model-based generation: the history is grown step by step against a live circuit,
+    so that arguments can refer to what exists at that point (existing nodes, registered
+    instances, legal and illegal targets) -- the way a rule-based state machine draws its
+    rule arguments.  The result is still a plain op list that check() re-executes."""
+    start = draw(st.integers(0, 2))
+    c, sb = specs.build(copy.deepcopy(STARTS[start]), with_bbs=True)
+    bbs = [cg.BlackBox(n, list(i), list(o)) for n, i, o in BBTYPES]
+    if sb:
+        bbs[0] = sb[0]
+    children = [specs.build(s) for s in CHILDREN]
+    ops = []
+    fresh = 0
+    for _ in range(draw(st.integers(3, 30))):
+        nodes = sorted(c.graph.nodes)
+        insts = sorted(c.blackboxes)
+        anynode = st.sampled_from(nodes + ["zz"]) if nodes else st.just("zz")
+        kind = draw(st.sampled_from(["add", "add", "add", "connect", "connect", "disconnect", "remove", "set_output",
+                                     "add_blackbox", "add_subcircuit", "fill", "fill"]))
+        if kind == "add":
+            uid = draw(st.integers(0, 3)) == 0
+            if uid and nodes:
+                n = draw(st.sampled_from(nodes))
+            else:
+                n = f"w{fresh}"
+                fresh += 1
+            t = draw(st.sampled_from(["and", "or", "xor", "nand", "nor", "xnor", "buf", "not", "input", "0", "1", "bb_output", "bb_input"]))
+            k = draw(st.integers(0, 3))
+            fi = draw(st.lists(anynode, min_size=k, max_size=k)) if k else None
+            fo = draw(st.one_of(st.none(), st.none(), anynode, st.lists(anynode, min_size=1, max_size=2)))
+            op = ["add", n, t, fi, fo, draw(st.booleans()), uid]
+        elif kind == "connect":
+            op = ["connect", draw(st.one_of(anynode, st.lists(anynode, min_size=1, max_size=2))),
+                  draw(st.one_of(anynode, st.lists(anynode, min_size=1, max_size=2)))]
+        elif kind == "disconnect":
+            edges = sorted(c.graph.edges)
+            if edges and draw(st.booleans()):
+                u, v = draw(st.sampled_from(edges))
+                op = ["disconnect", u, v]
+            else:
+                op = ["disconnect", draw(anynode), draw(anynode)]
+        elif kind == "remove":
+            op = ["remove", draw(st.one_of(anynode, st.lists(anynode, min_size=1, max_size=2)))]
+        elif kind == "set_output":
+            op = ["set_output", draw(st.one_of(anynode, st.lists(anynode, min_size=1, max_size=2))), draw(st.booleans())]
+        elif kind == "add_blackbox":
+            i = draw(st.integers(0, len(BBTYPES) - 1))
+            pins = BBTYPES[i][1] + BBTYPES[i][2]
+            conns = {}
+            for pn in pins:
+                if draw(st.booleans()):
+                    conns[pn] = draw(anynode)
+            nm = draw(st.sampled_from(["u", "v", "w", "i%d" % fresh] + insts))
+            op = ["add_blackbox", i, nm, conns]
+        elif kind == "add_subcircuit":
+            i = draw(st.integers(0, len(CHILDREN) - 1))
+            io = [x[0] for x in CHILDREN[i]["nodes"] if x[1] == "input" or x[3]]
+            conns = {}
+            for pn in io:
+                if draw(st.booleans()):
+                    conns[pn] = draw(anynode)
+            nm = draw(st.sampled_from(["u", "v", "w", "s%d" % fresh]))
+            op = ["add_subcircuit", i, nm, conns]
+        else:
+            nm = draw(st.sampled_from(insts + ["u"])) if insts else "u"
+            op = ["fill_blackbox", nm, draw(st.sampled_from([0, 0, 1, 2, 3, 4, 5]))]
+        ops.append(op)
+        _apply(c, op, children, bbs)
+    return {"start": start, "ops": ops}
+
+
 def strategy(ctx):
-    return st.builds(lambda s, ops: {"start": s, "ops": ops}, st.integers(0, 2), st.lists(_op(), min_size=1, max_size=40))
+    blind = st.builds(lambda s, ops: {"start": s, "ops": ops}, st.integers(0, 2), st.lists(_op(), min_size=1, max_size=40))
+    return st.one_of(blind, _stateful_case(ctx), _stateful_case(ctx))
 
 
 # ------------------------------------------------------------------ checker
